@@ -304,10 +304,14 @@ func (w *World) ConvergeE(ns, name string, pendingChanges int) ConvergeResult {
 	// quiet = nothing ready, final predicate holds, and it still holds (with no writes) after 3 more frequencies
 	stableSince := time.Time{}
 	lastWrites := -1
+	alt := ""
 	res.Reached = loop.RunUntil(deadline, func() bool {
-		if l2, failed := w.liveAfterFailure(ns, name, live); failed && l2 != live {
-			live = l2
-			res.Resolution = "auto-failed-during-phase"
+		if l2, failed := w.liveAfterFailure(ns, name, live); failed && l2 != live && alt == "" {
+			alt = l2
+			res.Resolution += "+auto-failed-during-phase"
+		}
+		if alt != "" && w.finalOK(ns, name, live) != "" && w.finalOK(ns, name, alt) == "" {
+			live, alt = alt, live
 		}
 		if w.finalOK(ns, name, live) != "" {
 			stableSince = time.Time{}
